@@ -32,6 +32,10 @@ type e4Config struct {
 	// CancelConnectCtx: the context given to Connect is cancelled as soon as Connect returned
 	// (ctx, cancel := WithTimeout(...); defer cancel(); cli.Connect(ctx) - the usual caller pattern)
 	CancelConnectCtx bool `json:"cancelConnectCtx,omitempty"`
+	// OnErrorSleepUs: the OnError callback is slow (an application logging synchronously)
+	OnErrorSleepUs int `json:"onErrorSleepUs,omitempty"`
+	// GrantMax: the broker grants min(requested, GrantMax) in SUBACK (0 = grants what was requested)
+	GrantMax int `json:"grantMax,omitempty"`
 }
 
 type e4Step struct {
@@ -42,12 +46,15 @@ type e4Step struct {
 	Extra  int      `json:"extra,omitempty"` // pub: extra payload bytes; sleep: microseconds; handle: handler number
 	ID     int      `json:"id,omitempty"`    // pub: caller-chosen packet id (0 = let the client choose)
 	Subs   []c05Sub `json:"subs,omitempty"`
-	Idx    int      `json:"idx"` // submission index (assigned by normalisation)
+	Idx    int      `json:"idx"`            // submission index (assigned by normalisation)
+	Site   string   `json:"site,omitempty"` // atHook: the point of the reconnect loop at which Sub is submitted
+	Sub    *e4Step  `json:"sub,omitempty"`
 }
 
 type e4Inject struct {
-	Conn int `json:"conn"`
-	QoS  int `json:"qos"`
+	Conn int  `json:"conn"`
+	QoS  int  `json:"qos"`
+	Dup  bool `json:"dup,omitempty"` // a re-delivery by the broker (QoS>0)
 }
 
 type e4Case struct {
@@ -107,6 +114,7 @@ type e4Result struct {
 	Fired         []string
 	ProtoErrs     []string
 	SubPkts       []vEvent
+	ReaderStuck   string
 	Samples       []c16Sample
 	ConnEnd       []e4ConnEnd // per connection, as it was when the run ended (before teardown)
 	ConnectErr    error
@@ -137,59 +145,68 @@ func e4Payload(idx, extra int) []byte {
 	return b
 }
 
-// ---- observation hook (reconnclient.go, build tag verif): per RetryClient counters
+// ---- observation hooks (reconnclient.go, build tag verif): per RetryClient dispatch
 
 var vHookMu sync.Mutex
-var vHookCounters = map[interface{}]*int64{}
+var vHookOwners = map[interface{}]func(site string){}
 
 func init() {
 	verifHook = func(site string, owner interface{}) {
-		if site != "reconnect:tasks-pushed" {
-			return
-		}
 		vHookMu.Lock()
-		p := vHookCounters[owner]
+		f := vHookOwners[owner]
 		vHookMu.Unlock()
-		if p != nil {
-			atomic.AddInt64(p, 1)
+		if f != nil {
+			f(site)
 		}
 	}
 }
 
-func vHookRegister(owner interface{}) *int64 {
-	p := new(int64)
+func vHookRegister(owner interface{}, f func(site string)) {
 	vHookMu.Lock()
-	vHookCounters[owner] = p
+	vHookOwners[owner] = f
 	vHookMu.Unlock()
-	return p
 }
 
 func vHookUnregister(owner interface{}) {
 	vHookMu.Lock()
-	delete(vHookCounters, owner)
+	delete(vHookOwners, owner)
 	vHookMu.Unlock()
 }
 
+type e4HookAction struct {
+	site string
+	run  func()
+	done chan struct{}
+}
+
 type e4Env struct {
-	pushed *int64 // reconnect loop passed "tasks pushed" this many times
-	active int64  // ConnState(Active) callbacks
-	ctx    context.Context
-	c      e4Case
-	log    *vLog
-	b      *vbroker
-	d      *vdialer
-	rc     *RetryClient
-	cli    ReconnectClient
-	res    *e4Result
-	mu     sync.Mutex
-	curH   int32
-	connCh chan struct{}
+	pushed  *int64 // reconnect loop passed "tasks pushed" this many times
+	hookMu  sync.Mutex
+	pending []*e4HookAction // actions waiting for the next passage of the loop through their site
+	active  int64           // ConnState(Active) callbacks
+	ctx     context.Context
+	c       e4Case
+	log     *vLog
+	b       *vbroker
+	d       *vdialer
+	rc      *RetryClient
+	cli     ReconnectClient
+	res     *e4Result
+	mu      sync.Mutex
+	curH    int32
+	connCh  chan struct{}
 }
 
 func (e *e4Env) handler(n int) Handler {
 	return HandlerFunc(func(m *Message) {
 		if m.Topic == vSyncTopic {
 			return
+		}
+		if n >= 100 && n < 200 {
+			// a one-shot handler: replaces itself from inside its own callback
+			e.log.add(0, "HANDLE-START", nil, fmt.Sprintf("handler=%d", n+100))
+			e.cli.Handle(e.handler(n + 100))
+			e.log.add(0, "HANDLE", nil, fmt.Sprintf("handler=%d", n+100))
 		}
 		pk := refPacket{Type: rtPublish, Topic: m.Topic, Payload: append([]byte{}, m.Payload...), QoS: int(m.QoS), Retain: m.Retain, Dup: m.Dup, ID: int(m.ID)}
 		seq := e.log.add(0, "H", &pk, fmt.Sprintf("handler=%d", n))
@@ -301,6 +318,7 @@ var e4StuckAfter = 3 * time.Second
 func e4Run(c e4Case) (res *e4Result) {
 	log := &vLog{}
 	b := newVBroker(log, c.Cfg.SessionKept, c.Cfg.MethodB, c.Faults)
+	b.grantMax = c.Cfg.GrantMax
 	d := &vdialer{b: b, maxRead: c.Cfg.MaxRead}
 	res = &e4Result{Case: c}
 	e := &e4Env{c: c, log: log, b: b, d: d, res: res}
@@ -310,6 +328,7 @@ func e4Run(c e4Case) (res *e4Result) {
 		pk := refPacket{Type: rtPublish, Topic: "in/t", QoS: in.QoS, Payload: []byte(fmt.Sprintf("in%d.%d|", in.Conn, perConn[in.Conn]))}
 		if in.QoS > 0 {
 			pk.ID = 1000 + 10*in.Conn + perConn[in.Conn]
+			pk.Dup = in.Dup
 		}
 		b.inject[in.Conn] = append(b.inject[in.Conn], pk)
 		if in.QoS == 2 {
@@ -325,9 +344,33 @@ func e4Run(c e4Case) (res *e4Result) {
 		e.mu.Lock()
 		res.OnErrors = append(res.OnErrors, e4OnErr{seq, err})
 		e.mu.Unlock()
+		if c.Cfg.OnErrorSleepUs > 0 {
+			time.Sleep(time.Duration(c.Cfg.OnErrorSleepUs) * time.Microsecond)
+		}
 	}
 	e.rc = rc
-	e.pushed = vHookRegister(rc)
+	e.pushed = new(int64)
+	vHookRegister(rc, func(site string) {
+		if site == "reconnect:tasks-pushed" {
+			atomic.AddInt64(e.pushed, 1)
+		}
+		e.hookMu.Lock()
+		var todo []*e4HookAction
+		rest := e.pending[:0]
+		for _, a := range e.pending {
+			if a.site == site {
+				todo = append(todo, a)
+			} else {
+				rest = append(rest, a)
+			}
+		}
+		e.pending = rest
+		e.hookMu.Unlock()
+		for _, a := range todo {
+			a.run() // on the reconnect loop's goroutine, exactly at that point of the loop
+			close(a.done)
+		}
+	})
 	defer vHookUnregister(rc)
 	d.onState = func(conn int, st ConnState, err error) {
 		if st == StateActive {
@@ -386,7 +429,10 @@ func e4Run(c e4Case) (res *e4Result) {
 		}
 	}()
 
+	var submitMu sync.Mutex
 	submit := func(s e4Step) {
+		submitMu.Lock()
+		defer submitMu.Unlock()
 		q := e4Req{Idx: s.Idx, Kind: s.Kind, QoS: s.QoS, Step: s, PreConn: !connStarted, InOutage: held}
 		var err error
 		switch s.Kind {
@@ -445,6 +491,49 @@ func e4Run(c e4Case) (res *e4Result) {
 		switch s.Kind {
 		case "pub", "sub", "unsub":
 			submit(s)
+		case "atHook":
+			// submit s.Sub exactly when the reconnect loop next passes s.Site (on the loop's own goroutine);
+			// the runner waits for that, so the submission order stays the step order
+			if s.Sub == nil {
+				continue
+			}
+			if !connStarted || held || disconnected {
+				submit(*s.Sub)
+				continue
+			}
+			sub := *s.Sub
+			a := &e4HookAction{site: s.Site, done: make(chan struct{}), run: func() {
+				log.add(0, "AT-HOOK", nil, s.Site)
+				submit(sub)
+			}}
+			e.hookMu.Lock()
+			e.pending = append(e.pending, a)
+			e.hookMu.Unlock()
+			if bc := d.currentConn(); bc != nil {
+				b.mu.Lock()
+				bc.kill() // provoke a reconnect: the loop will come by
+				b.mu.Unlock()
+			}
+			select {
+			case <-a.done:
+			case <-time.After(3 * time.Second):
+				// the loop never came by (e.g. that site is skipped in this configuration): submit directly
+				e.hookMu.Lock()
+				stillPending := false
+				for i, x := range e.pending {
+					if x == a {
+						e.pending = append(e.pending[:i], e.pending[i+1:]...)
+						stillPending = true
+						break
+					}
+				}
+				e.hookMu.Unlock()
+				if stillPending {
+					submit(sub)
+				} else {
+					<-a.done
+				}
+			}
 		case "connect":
 			if !connStarted {
 				startConnect()
@@ -489,6 +578,7 @@ func e4Run(c e4Case) (res *e4Result) {
 				pk := refPacket{Type: rtPublish, Topic: "in/t", QoS: s.QoS, Payload: []byte(fmt.Sprintf("ins%d|", b.syncN))}
 				if s.QoS > 0 {
 					pk.ID = 2000 + b.syncN
+					pk.Dup = s.Retain // (the Retain field of an inject step carries "DUP")
 				}
 				bc.send(pk, false, "")
 				if s.QoS == 2 {
@@ -497,17 +587,24 @@ func e4Run(c e4Case) (res *e4Result) {
 				mid := vSyncIDBase + 100 + b.syncN
 				bc.send(refPacket{Type: rtPublish, Topic: vSyncTopic, QoS: 1, ID: mid}, false, "")
 				b.mu.Unlock()
+				acked := false
 				vWaitUntil(20*time.Second, func() bool {
 					if lc, pc := bc.mc.isClosed(); lc || pc {
 						return true
 					}
 					for _, ev := range log.snapshot() {
 						if ev.Kind == "W" && ev.Conn == bc.id && ev.Pkt.Type == rtPubAck && ev.Pkt.ID == mid {
+							acked = true
 							return true
 						}
 					}
 					return false
 				})
+				if lc, pc := bc.mc.isClosed(); !acked && !lc && !pc {
+					// a healthy connection that has not answered a QoS1 marker for 20 s: its reader is stuck
+					res.ReaderStuck = fmt.Sprintf("connection c%d did not process inbound packets for 20 s (marker %d never acknowledged, link up)", bc.id, mid)
+					res.Dump = vGoroutineDump()
+				}
 			}
 		case "handle":
 			atomic.StoreInt32(&e.curH, int32(s.Extra))
@@ -681,7 +778,7 @@ func e4GenSteps(rt *rapid.T, o e4GenOpts) []e4Step {
 		for i := 0; i < r.NSubs; i++ {
 			r.F = append(r.F, c05Sub{Filter: rapid.SampledFrom(pool).Draw(rt, "f"), QoS: rapid.IntRange(0, 2).Draw(rt, "fq")})
 		}
-		r.Ctl = rapid.SampledFrom([]int{0, 1, 2, 2, 3, 3, 4, 5, 6, 6, 6}).Draw(rt, "ctl")
+		r.Ctl = rapid.SampledFrom([]int{0, 1, 2, 2, 3, 3, 4, 5, 6, 6, 6, 7, 7, 7}).Draw(rt, "ctl")
 		return r
 	}), 1, o.MaxSteps).Draw(rt, "steps")
 
@@ -730,6 +827,22 @@ func e4GenSteps(rt *rapid.T, o e4GenOpts) []e4Step {
 				}
 			case 4:
 				steps = append(steps, e4Step{Kind: "sleep", Extra: r.Extra * 10})
+			case 7:
+				if !held && !o.NoCuts {
+					idx++
+					k := "pub"
+					if r.NSubs == 2 {
+						k = "sub"
+					} else if r.NSubs == 1 && r.Kind%2 == 0 {
+						k = "unsub"
+					}
+					sub := e4Step{Kind: k, QoS: r.QoS, Retain: r.Retain, Topic: r.Topic, Extra: r.Extra, Idx: idx}
+					if k != "pub" {
+						sub.Subs = r.F
+					}
+					site := []string{"reconnect:client-set", "reconnect:connected", "reconnect:resubscribed", "reconnect:tasks-pushed"}[(r.Extra+r.QoS+len(r.Topic))%4]
+					steps = append(steps, e4Step{Kind: "atHook", Site: site, Sub: &sub})
+				}
 			case 6:
 				// un-gated cut: the reconnect races with the following submissions
 				if !held && !o.NoCuts {
@@ -805,6 +918,10 @@ func e4GenConfig(rt *rapid.T) e4Config {
 		MaxUs:            rapid.SampledFrom([]int{1000, 2000, 4000}).Draw(rt, "maxUs"),
 		MaxRead:          rapid.SampledFrom([]int{0, 0, 0, 1, 3}).Draw(rt, "maxRead"),
 		CancelConnectCtx: rapid.Bool().Draw(rt, "cancelConnectCtx"),
+		// a response timeout that never fires: only switches the client to its timeout code paths
+		RespTimeoutMs:  rapid.SampledFrom([]int{0, 0, 60000}).Draw(rt, "respTimeoutMs"),
+		OnErrorSleepUs: rapid.SampledFrom([]int{0, 0, 0, 1500, 3000}).Draw(rt, "onErrorSleepUs"),
+		GrantMax:       rapid.SampledFrom([]int{0, 0, 0, 1, 2}).Draw(rt, "grantMax"),
 	}
 }
 
